@@ -647,9 +647,35 @@ func (x *Exec) frameCheck(p *Path, fc *FuncContract) {
 	}
 	// q.assumes now holds equations newKey = store(oldKey, loc, fresh) for allowed changes.
 	keys := p.heapKeys()
+	guarded := map[string]bool{}
+	if fc.Atomic == "" && len(fc.Holds) == 0 {
+		// not inside a critical section: guarded state may change under our feet (other threads)
+		for tk, tc := range e.cs.Types {
+			mus := map[string]bool{}
+			for _, mu := range tc.Guarded {
+				mus[mu] = true
+			}
+			for _, g := range tc.Ghost {
+				if g.GuardedBy != "" {
+					mus[g.GuardedBy] = true
+				}
+			}
+			for mu := range mus {
+				if strings.Contains(mu, ".") {
+					continue
+				}
+				for _, gk := range x.guardedKeys(tk, mu) {
+					guarded[gk] = true
+				}
+			}
+		}
+	}
 	for _, k := range keys {
 		srt, ok := e.keySort[k]
 		if !ok {
+			continue
+		}
+		if guarded[k] {
 			continue
 		}
 		if strings.HasPrefix(k, "F:") && e.isGhostKey(k) && false {
@@ -712,12 +738,13 @@ func frameGoal(srt, cur, was, allowed string, defs []string, oldBrk string) stri
 	for t != was {
 		def, ok := defOf[t]
 		if !ok {
-			break
+			// the whole key was havocked by the modifies clause (T.f): nothing to check
+			return "true"
 		}
 		// def is (store BASE OBJ VAL)
 		parts := splitSexp(def)
 		if len(parts) != 4 || parts[0] != "store" {
-			break
+			return "true"
 		}
 		base, obj, val := parts[1], parts[2], parts[3]
 		vp := splitSexp(val)
@@ -1080,6 +1107,16 @@ func (x *Exec) assumeHeld(p *Path, label string) {
 		return
 	}
 	ctx := x.evalCtx(p, x.params)
+	if id, ok := s.X.(*EIdent); ok {
+		if _, isVar := ctx.lookup(id.Name); !isVar {
+			// type-level: some lock T.mu is held
+			if t := ctx.resolveType(id.Name); t != nil {
+				own := Owner{Obj: "?", TKey: typeKey(t), Field: s.F}
+				p.locks[lockKey(own, label)] = "w"
+				return
+			}
+		}
+	}
 	var base Val
 	func() {
 		defer func() {
@@ -1109,6 +1146,20 @@ func (x *Exec) lockHeldForCallee(p *Path, vars map[string]Val, label, pkg string
 	ctx := x.evalCtx(p, vars)
 	ctx.pkg = pkg
 	ctx.frame = nil
+	if id, ok := s.X.(*EIdent); ok {
+		if _, isVar := ctx.lookup(id.Name); !isVar {
+			if t := ctx.resolveType(id.Name); t != nil {
+				want := typeKey(t) + "." + s.F
+				for k := range p.locks {
+					parts := strings.Split(k, "\x00")
+					if len(parts) == 3 && parts[1] == want {
+						return true
+					}
+				}
+				return false
+			}
+		}
+	}
 	var base Val
 	okEval := true
 	func() {
